@@ -798,6 +798,14 @@ class CallMixin:  # pylint:disable=too-many-public-methods
             if best is None and not items:
                 self.raise_("ValueError", f"{short}() arg is an empty sequence")
             return best
+        if short == "map":
+            seqs = [self.iterate(a, node, frame) for a in args[1:]]
+            return [self.call(args[0], list(t), {}, node, frame) for t in zip(*seqs)]
+        if short == "filter":
+            items = self.iterate(args[1], node, frame)
+            return [x for x in items if self.truth(self.call(args[0], [x], {}, node, frame) if args[0] is not None else x)]
+        if short == "callable":
+            return isinstance(args[0], (FuncVal, ClassVal, ExtVal, BoundExt))
         if short == "sum":
             return sum(self.iterate(args[0], node, frame))
         if short == "print":
@@ -825,6 +833,15 @@ class CallMixin:  # pylint:disable=too-many-public-methods
                 if len(args) > 1:
                     return args[1]
                 self.raise_("StopIteration")
+        if name == "itertools.chain.from_iterable":
+            return [x for sub_ in self.iterate(args[0], node, frame) for x in self.iterate(sub_, node, frame)]
+        if name == "itertools.compress":
+            return [x for x, f_ in zip(self.iterate(args[0], node, frame), self.iterate(args[1], node, frame)) if self.truth(f_)]
+        if name in ("itertools.repeat",) and len(args) == 2:
+            return [args[0]] * args[1]
+        if name == "itertools.zip_longest":
+            import itertools as _it
+            return [tuple(t) for t in _it.zip_longest(*[self.iterate(a, node, frame) for a in args], fillvalue=kwargs.get("fillvalue"))]
         if name in ("itertools.product", "itertools.combinations", "itertools.permutations", "itertools.chain"):
             import itertools as _it
             seqs = [self.iterate(a, node, frame) for a in args[: (1 if short != "itertools.product" and short != "itertools.chain" else None)]]
